@@ -23,7 +23,11 @@ Open Scope Z_scope.
 
 (* an instance the hub has removed from its registry and told to exit; its goroutine has not
    read the exit message yet.  [z_deleted] is the status bit set by markDeleted. *)
-Record zinst := mkZ { z_ca : cache; z_deleted : bool }.
+Record zinst := mkZ {
+  z_ca : cache; z_deleted : bool;
+  (* Some (sid, content, noecho): when the hub unregistered it, its goroutine was inside
+     handlePubBroadcast for this {pub}, past the isInactive check and not yet in store.Messages.Save *)
+  z_inflight : option (N * N * bool) }.
 
 Record rstate := mkR {
   r_x : state;                 (* store; the instance registered with the hub; adapter calls of the last request *)
@@ -36,7 +40,14 @@ Inductive rop :=
 | RTimeout                                               (* the kill timer of the registered instance fires *)
 | RHubUnreg                                              (* the hub handles one pending unregister request *)
 | RZPub (i : nat) (sid : N) (content : N) (noecho : bool) (* unregistered instance i handles a queued {pub} *)
-| RZExit (i : nat).                                      (* unregistered instance i reads its exit message *)
+| RZExit (i : nat)                                       (* unregistered instance i reads its exit message *)
+(* The handlers of one instance are atomic with respect to each other, NOT with respect to the
+   hub: the status bits are written by the hub goroutine.  RHubUnregMid: the hub handles a pending
+   unregister request while the registered instance is inside handlePubBroadcast for a {pub} of
+   session sid - it has passed the isInactive check and has not yet called Save.  RZFinish: that
+   instance completes the publish (Save, acknowledgement, broadcast) and then reads its exit message. *)
+| RHubUnregMid (sid : N) (content : N) (noecho : bool)
+| RZFinish (i : nat).
 
 Definition op_sid (o : op) : N :=
   match o with
@@ -96,7 +107,7 @@ Definition zpub (r : rstate) (f : fault) (i : nat) (z : zinst) (sid content : N)
   let x := r_x r in
   let u := sess_uid sm sid in
   let h := publish f (st x) (z_ca z) 0 sid u content noecho in
-  (mkR (mkState (h_st h) (ca x) (h_n h)) (r_pend r) (zset i (mkZ (h_ca h) false) (r_zomb r))
+  (mkR (mkState (h_st h) (ca x) (h_n h)) (r_pend r) (zset i (mkZ (h_ca h) false None) (r_zomb r))
        (r_issued r ++ pub_issue (z_ca z) u h), h_out h).
 
 (* None = the action is outside this model (a session still attached to an unregistered instance
@@ -109,7 +120,11 @@ Definition rstep (r : rstate) (a : rop) : option (rstate * out) :=
     | Some i =>
       match o, nth_error (r_zomb r) i with
       | OSub _ _ _, _ => Some (r, [(sid, Ctrl 304 [])])          (* Session.subscribe: already subscribed *)
-      | OPub _ content noecho, Some z => Some (zpub r f i z sid content noecho)
+      | OPub _ content noecho, Some z =>
+        match z_inflight z with
+        | None => Some (zpub r f i z sid content noecho)
+        | Some _ => None                                        (* its goroutine is busy until RZFinish *)
+        end
       | _, _ => None
       end
     | None =>
@@ -133,21 +148,57 @@ Definition rstep (r : rstate) (a : rop) : option (rstate * out) :=
     | S p =>
       (* topicUnreg, case 2: whatever instance is registered under the name now *)
       match ca (r_x r) with
-      | Some c => Some (mkR (mkState (st (r_x r)) None 0) p (r_zomb r ++ [mkZ c mark]) (r_issued r), [])
+      | Some c => Some (mkR (mkState (st (r_x r)) None 0) p (r_zomb r ++ [mkZ c mark None]) (r_issued r), [])
       | None => Some (mkR (r_x r) p (r_zomb r) (r_issued r), [])
       end
     end
   | RZPub i sid content noecho =>
     match nth_error (r_zomb r) i with
-    | Some z => if attached (z_ca z) sid then Some (zpub r NoFault i z sid content noecho) else None
+    | Some z =>
+      match z_inflight z with
+      | None => if attached (z_ca z) sid then Some (zpub r NoFault i z sid content noecho) else None
+      | Some _ => None
+      end
     | None => None
     end
   | RZExit i =>
     match nth_error (r_zomb r) i with
-    | Some _ => Some (mkR (r_x r) (r_pend r) (zdrop i (r_zomb r)) (r_issued r), [])
+    | Some z =>
+      match z_inflight z with
+      | None => Some (mkR (r_x r) (r_pend r) (zdrop i (r_zomb r)) (r_issued r), [])
+      | Some _ => None
+      end
+    | None => None
+    end
+  | RHubUnregMid sid content noecho =>
+    match r_pend r, ca (r_x r) with
+    | S p, Some c =>
+      (* the window exists only if the publish gets as far as Save: attached session, author with W *)
+      if attached c sid && is_writer (user_mode c (sess_uid sm sid))
+      then Some (mkR (mkState (st (r_x r)) None 0) p (r_zomb r ++ [mkZ c mark (Some (sid, content, noecho))]) (r_issued r), [])
+      else None
+    | _, _ => None
+    end
+  | RZFinish i =>
+    match nth_error (r_zomb r) i with
+    | Some z =>
+      match z_inflight z with
+      | Some (sid, content, noecho) =>
+        (* saveAndBroadcastMessage does not look at the status bits again *)
+        let x := r_x r in
+        let u := sess_uid sm sid in
+        let h := publish NoFault (st x) (z_ca z) 0 sid u content noecho in
+        Some (mkR (mkState (h_st h) (ca x) (h_n h)) (r_pend r) (zdrop i (r_zomb r))
+                  (r_issued r ++ pub_issue (z_ca z) u h), h_out h)
+      | None => None
+      end
     | None => None
     end
   end.
+
+(* histories in which no unregistration lands inside a publish handler *)
+Definition mid_free (a : rop) : bool :=
+  match a with RHubUnregMid _ _ _ => false | _ => true end.
 
 Fixpoint rrun (r : rstate) (l : list rop) : option (rstate * list out) :=
   match l with
